@@ -76,6 +76,95 @@ example : okHist (setFamily "Vary".toList) hsEq (fun c => decide (HS.Inv c)) C08
      .view (.update ["a b".toList, "ACCEPT".toList]), .refetch, .view (.setitem 0 "Origin".toList), .view .clear] = true := by
   decide +kernel
 
+/-- every member of the view is a non-empty word of token characters -/
+def tokenView (c : HS.St) : Bool := c.headers.all tokenWord
+
+/-- a HeaderSet view whose members are token words re-reads equal after it wrote itself back -/
+theorem set_view_roundtrip_tokens (h : HList) (name : Str) (c : HS.St) (hI : HS.Inv c)
+    (ht : tokenView c = true) : hsEq (SetView.load (SetView.write h name c) name) c = true := by
+  have hl : ∀ w ∈ c.headers, tokenWord w = true := List.all_eq_true.1 ht
+  have hall : ∀ x ∈ c.headers, x.all tokCh = true := by
+    intro x hx; have := hl x hx; simp only [tokenWord, Bool.and_eq_true] at this; exact this.2
+  have hsets : ∀ (s : List Str), (∀ x, x ∈ s ↔ x ∈ c.set) →
+      (s.all (c.set.contains ·) && c.set.all (s.contains ·)) = true := by
+    intro s hs
+    simp only [Bool.and_eq_true, List.all_eq_true, List.contains_iff_mem]
+    exact ⟨fun x hx => (hs x).1 hx, fun x hx => (hs x).2 hx⟩
+  cases he : c.set.isEmpty with
+  | true =>
+    have hset : c.set = [] := by simpa using he
+    have hh : c.headers = [] := by
+      cases hc : c.headers with
+      | nil => rfl
+      | cons w r =>
+        have := (hI.2.2 (lower w)).2 (by rw [hc]; simp)
+        rw [hset] at this; cases this
+    have : SetView.load (SetView.write h name c) name = HS.construct [] := by
+      simp only [SetView.write, he, if_true, SetView.load, absent_getKey]
+    rw [this]
+    simp [hsEq, HS.construct, hh, hset]
+  | false =>
+    have hne : c.headers ≠ [] := by
+      intro e
+      have : c.set = [] := by
+        cases hs : c.set with
+        | nil => rfl
+        | cons x t =>
+          have := (hI.2.2 x).1 (by rw [hs]; exact List.mem_cons_self)
+          rw [e] at this; cases this
+      simp [this] at he
+    have hd := dump_tokens c.headers hl
+    have hnl : hasNL (SetView.dump c) = false := by
+      unfold SetView.dump; rw [hd]; exact intercalate_noNL _ hall
+    have hnonempty : (SetView.dump c).isEmpty = false := by
+      unfold SetView.dump; rw [hd]
+      cases hc : c.headers with
+      | nil => exact absurd hc hne
+      | cons w r =>
+        have hw : w ≠ [] := by
+          intro e; have := hl w (by rw [hc]; exact List.mem_cons_self); subst e; simp [tokenWord] at this
+        cases w with
+        | nil => exact absurd rfl hw
+        | cons ch t => cases r <;> simp [List.intercalate, List.intersperse]
+    have : SetView.load (SetView.write h name c) name = HS.construct c.headers := by
+      simp only [SetView.write, he, Bool.false_eq_true, if_false, SetView.load, set_getKey h name _ hnl, hnonempty]
+      unfold SetView.dump
+      rw [parseList_dumpList c.headers hl hne]
+    rw [this]
+    have hmem := (C08L.foldl_setAdd c.headers [] (by simp)).2
+    simp only [hsEq, HS.construct, decide_true, Bool.true_and]
+    apply hsets
+    intro x
+    rw [hmem x, hI.2.2 x]
+    simp
+
+/-- Vary / Allow / Content-Language with token-valued members (field names, methods, language
+tags): coherence along EVERY history with no codec hypothesis — the round trip is proved
+(`parseList_dumpList`). Side conditions left: fetched views satisfy `HeaderSet.Inv`, item
+assignments do not collide (F08b/F08c), written views have token members. -/
+theorem view_coherent_set_tokens (name : Str) (evs : List (Ev HS.Op)) (s : S HS.St)
+    (hI : HS.Inv s.v) (hs : s.synced = true → hsEq (SetView.load s.h name) s.v = true)
+    (hok : okHistGood (setFamily name) hsEq (fun c => decide (HS.Inv c)) C08L.hsOk tokenView s evs = true) :
+    HS.Inv (run (setFamily name) s evs).v ∧
+    ((run (setFamily name) s evs).synced = true →
+      hsEq (SetView.load (run (setFamily name) s evs).h name) (run (setFamily name) s evs).v = true) := by
+  apply view_coherent_set name evs s hI hs
+  apply okHist_of_good (setFamily name) hsEq (fun c => decide (HS.Inv c)) C08L.hsOk tokenView _ _ evs s
+    (by simpa using hI) hok
+  · intro v op hv ha
+    simp only [decide_eq_true_eq] at hv ⊢
+    exact C08L.hs_inv_preserved v hv op ha
+  · intro h v hv hg
+    simp only [decide_eq_true_eq] at hv
+    exact set_view_roundtrip_tokens h name v hv hg
+
+example : okHistGood (setFamily "Vary".toList) hsEq (fun c => decide (HS.Inv c)) C08L.hsOk tokenView
+    ⟨[], HS.construct [], true⟩
+    [.view (.add "Cookie".toList), .view (.add "Accept-Encoding".toList), .view (.remove "cookie".toList),
+     .edit (fun h => (Hdr.set h "Vary".toList "Origin, X-Foo".toList).1), .refetch,
+     .view (.setitem 0 "User-Agent".toList), .view (.discard "x-foo".toList), .view .clear] = true := by
+  decide +kernel
+
 /-- cache_control: every typed directive assignment / deletion and every dict mutator -/
 theorem view_coherent_cc (evs : List (Ev CC.Op)) (s : S ODict)
     (hs : s.synced = true → CC.load s.h = s.v) (hok : okHist ccFamily eqB anyView anyOp s evs = true) :
